@@ -30,7 +30,9 @@ def encodings():
     return {'enum': (WellKnownMimeTypes.APPLICATION_CBOR, b'application/cbor'),
             'enum-composite': (WellKnownMimeTypes.MESSAGE_RSOCKET_COMPOSITE_METADATA, b'message/x.rsocket.composite-metadata.v0'),
             'str': ('text/plain', b'text/plain'), 'bytes': (b'application/json', b'application/json'),
-            'custom1': (b'z', b'z'), 'custom127': (b'c' * 127, b'c' * 127)}
+            'custom1': (b'z', b'z'), 'custom127': (b'c' * 127, b'c' * 127),
+            # a MIME name is a length-prefixed byte string on the wire: bytes outside ASCII travel unchanged
+            'custom-nonascii': (b'text/x-caf\xc3\xa9', b'text/x-caf\xc3\xa9')}
 
 
 def bounds(tier):
@@ -71,6 +73,17 @@ def fidelity_case(flavour, ka, lt, dname, mname, pname, lease, fs, part, pub=Fal
                              'SETUP field %s is %r, configured %r' % (name, got if not isinstance(got, bytes) else got[:40], want if not isinstance(want, bytes) else want[:40]), wit)
         if ka % 1000 or lt % 1000 or dname.startswith('custom') or mname.startswith('custom'):
             part.nontriv(tuple(sorted(wit.items())))
+        # SETUP precedes every other frame - and other frames do follow it: a request made next goes out (with lease honoured
+        # it waits for a LEASE, so this is judged without)
+        if not lease:
+            from mc.app import P
+            mark = len(s.log)
+            s.sock.fire_and_forget(P(b'after-setup'))
+            s.settle()
+            after = [f for f in s.sent(mark) if f.type == R.REQUEST_FNF]
+            if len(after) != 1:
+                part.violate('C16.setup-first', 'C16.setup-first | nothing-follows-setup | %s/%s' % (dname if dname.startswith('custom') else 'std', mname if mname.startswith('custom') else 'std'),
+                             'a fire-and-forget issued after connect produced %s' % s.sent(mark), wit)
     finally:
         s.teardown()
 
@@ -180,7 +193,7 @@ def make_setup_exc(kind):
 
 
 # ---- (c) ------------------------------------------------------------------------------------------------------------
-def server_case(flavour, resume, lease, publisher, raising, frame_kind, part):
+def server_case(flavour, resume, lease, publisher, raising, frame_kind, part, mimes=(b'text/plain', b'message/x.rsocket.routing.v0')):
     from rsocket.lease import SingleLeasePublisher
     from mc.app import pl
     calls = []
@@ -203,7 +216,7 @@ def server_case(flavour, resume, lease, publisher, raising, frame_kind, part):
     try:
         if frame_kind == 'setup':
             raw = R.enc_setup(data=b'sd', metadata=b'sm', lease=lease, resume_token=b'tok' if resume else None,
-                              data_mime=b'text/plain', metadata_mime=b'message/x.rsocket.routing.v0')
+                              data_mime=mimes[0], metadata_mime=mimes[1])
         else:
             raw = R.enc_resume()
         s.peer(raw)
@@ -214,7 +227,8 @@ def server_case(flavour, resume, lease, publisher, raising, frame_kind, part):
         errs = [f for f in frames if f.type == R.ERROR]
         part.state((frame_kind, resume, lease, publisher, raising, tuple((f.type, f.sid, f.error_code) for f in frames)))
         part.outcome(tuple((f.type, f.error_code) for f in frames))
-        wit = {'kind': 'server', 'flavour': flavour, 'resume': resume, 'lease': lease, 'publisher': publisher, 'raising': raising, 'frame': frame_kind}
+        wit = {'kind': 'server', 'flavour': flavour, 'resume': resume, 'lease': lease, 'publisher': publisher, 'raising': raising, 'frame': frame_kind,
+               'mimes': [mimes[0].hex(), mimes[1].hex()]}
         if frame_kind == 'resume':
             want = 0x004
         elif resume:
@@ -225,14 +239,15 @@ def server_case(flavour, resume, lease, publisher, raising, frame_kind, part):
             want = 0x003
         else:
             want = None
-        ctx = '%s resume=%s lease=%s publisher=%s on_setup-%s' % (frame_kind, resume, lease, publisher, ('raises' if raising in (True, 'app') else 'raises-' + raising) if raising else 'ok')
+        ctx = '%s resume=%s lease=%s publisher=%s on_setup-%s%s' % (frame_kind, resume, lease, publisher, ('raises' if raising in (True, 'app') else 'raises-' + raising) if raising else 'ok',
+                                                                   '' if mimes[0] == b'text/plain' else ' mime=%s' % MIME_NAMES.get(mimes, 'other'))
         if want is None:
             if len(calls) != 1:
                 part.violate('C16.on-setup-once', 'C16.on-setup-once | calls=%d | %s' % (len(calls), ctx), 'acceptable SETUP: on_setup invoked %d times' % len(calls), wit)
             if errs:
                 part.violate('C16.accepts-valid-setup', 'C16.accepts-valid-setup | %s' % ctx, 'acceptable SETUP answered with %s' % errs, wit)
             got = [ev[4] for ev in s.api('handler') if ev[3] == 'on_setup']
-            want = (b'text/plain', b'message/x.rsocket.routing.v0', (b'sd', b'sm'))
+            want = (mimes[0], mimes[1], (b'sd', b'sm'))
             if got and got[0] != want:
                 part.violate('C16.on-setup-once', 'C16.on-setup-once | arguments | %s' % ctx, 'on_setup received %s, the SETUP carried %s' % (got[0], want), wit)
         else:
@@ -244,6 +259,10 @@ def server_case(flavour, resume, lease, publisher, raising, frame_kind, part):
                 part.violate('C16.on-setup-once', 'C16.on-setup-once | called-for-rejected | %s' % ctx, 'on_setup invoked for an unsupported setup', wit)
     finally:
         s.teardown()
+
+
+MIME_NAMES = {(b'z', b'y'): 'one-byte', (b'text/x-caf\xc3\xa9', b'\xff\xfe\x00'): 'non-ascii', (b'd' * 127, b'm' * 127): '127-bytes',
+              (b'application/json', b'application/json'): 'same'}
 
 
 def make_units(tier):
@@ -286,6 +305,10 @@ def run_unit(unit, part):
         for publisher in (False, True):
             for raising in RAISING[:3]:
                 server_case(unit['flavour'], False, False, publisher, raising, 'resume', part)
+        for mimes in MIME_NAMES:
+            for lease, publisher in ((False, False), (True, True), (True, False)):
+                for raising in RAISING[:2]:
+                    server_case(unit['flavour'], False, lease, publisher, raising, 'setup', part, mimes)
         part.sample({'kind': 'server-inputs', 'link': unit['flavour']}, limit=1)
     else:
         scn = ConnectRace(unit['flavour'], unit['gate'], unit['late'], tuple(unit['kinds']))
@@ -307,7 +330,8 @@ def replay(rec):
         return bool(p.violations)
     if w.get('kind') == 'server':
         p = Partial()
-        server_case(w['flavour'], w['resume'], w['lease'], w['publisher'], w['raising'], w['frame'], p)
+        server_case(w['flavour'], w['resume'], w['lease'], w['publisher'], w['raising'], w['frame'], p,
+                    tuple(bytes.fromhex(x) for x in w['mimes']) if w.get('mimes') else (b'text/plain', b'message/x.rsocket.routing.v0'))
         for v in p.violations.values():
             print(v.detail)
         return bool(p.violations)
